@@ -25,7 +25,8 @@ package main
 //@   requires ph != nil && ph.perAddressStatus != nil
 //@   requires[mode-is-valid] ph.mode == ModeRoundRobin || ph.mode == ModeHostPool
 // one PublishHandler (one mode, chosen once in main()) starts all transactions of the process
-//@   requires[one-mode-per-process] forall v *nsq.ProducerTransaction :: {r3dTxnMode(v)} r3dTxnMode(v) == ph.mode
+//   (`env-`: an assumption about the whole process, not an obligation of main's `go` statement - reported in the evidence)
+//@   requires[env-one-mode-per-process] forall v *nsq.ProducerTransaction :: {r3dTxnMode(v)} r3dTxnMode(v) == ph.mode
 // (the receive that reports the closed channel is counted by recvd(), hence the -1; main() never closes respChan)
 //@   ensures[one-response-per-transaction] r3dResponses - old(r3dResponses) == recvd(ph.respChan) - old(recvd(ph.respChan)) - 1
 //@   loop 0
